@@ -8,6 +8,7 @@ import (
 	"io"
 	"os"
 	"os/signal"
+	"runtime"
 	"runtime/debug"
 	"sync"
 	"syscall"
@@ -169,6 +170,11 @@ func checkC17(c *ctx) {
 	}
 	nIn := c.n(3, 25)
 	for i := 0; i < nIn; i++ {
+		// the collector is off for the pools' sake; between input sets the garbage of thousands of
+		// merges is released by hand (one cycle: pooled objects survive it in the victim cache)
+		if i > 0 {
+			runtime.GC()
+		}
 		o := zh.RandOpts(c.R, 3+c.R.Intn(10), "w")
 		if i%3 == 1 {
 			o.NDocs = 40 + c.R.Intn(30) // an image larger than bufio's 4096-byte buffer (large-write paths)
